@@ -5,7 +5,7 @@ import random
 import bundle as B, trading, acct_sync, minute_run
 
 
-def stream(ctx, n_runs, monitors_):
+def stream(ctx, n_runs, monitors_, sched_clause=None):
     forced = getattr(ctx, "replay_run", None)
     for k in range(n_runs if not forced else 1):
         if forced and isinstance(forced[0], str) and forced[0].startswith("m"):
@@ -30,6 +30,9 @@ def stream(ctx, n_runs, monitors_):
         done = {}
 
         sched_minute = rnd.randrange(2, 30)
+        fires = []
+        from rqalpha.environment import Environment
+        toggled = {}
 
         def script(tr, handlers):
             au0 = handlers["open_auction"]
@@ -48,6 +51,7 @@ def stream(ctx, n_runs, monitors_):
                     if o is not None:
                         tr.orders[o.order_id] = o
                     tr.stats["orders_from_scheduled_function"] += 1
+                    fires.append(Environment.get_instance().calendar_dt)
                 api.scheduler.run_daily(scheduled, time_rule=api.market_open(minute=sched_minute))
 
             def open_auction(context, bar_dict):
@@ -62,7 +66,19 @@ def stream(ctx, n_runs, monitors_):
                             tr.orders[o.order_id] = o
                             api.cancel_order(o)
                 au0(context, bar_dict)
-            return dict(handlers, init=init, open_auction=open_auction)
+            hb0 = handlers["handle_bar"]
+
+            def handle_bar(context, bar_dict):
+                import rqalpha.api as api
+                now = Environment.get_instance().calendar_dt
+                if now.hour * 60 + now.minute == 571 + sched_minute - 1 and sched_clause:
+                    # the universe changes in the bar BEFORE the one the scheduled function is due at: the event source re-reads its minutes; no bar may get lost
+                    tgt = S["stocks"][-1]["id"]
+                    (api.unsubscribe if toggled.get("on", True) else api.subscribe)(tgt)
+                    toggled["on"] = not toggled.get("on", True)
+                    tr.stats["universe_changes_before_scheduled_bar"] += 1
+                hb0(context, bar_dict)
+            return dict(handlers, init=init, open_auction=open_auction, handle_bar=handle_bar)
         tr = trading.run_trading(rnd, S, cfgk, intensity=0.5, script=script)
         tr.run_seed, tr.run_index = rs, "m%d" % k
         ctx.stats["minute_runs"] += 1
@@ -76,3 +92,14 @@ def stream(ctx, n_runs, monitors_):
         world_sync.run_sync(ctx, tstream.world_corrs(ctx), tr, ix)        # the free-running composed model, fed one minute bar after the other
         for m in monitors_:
             m(ctx, tr, ix)
+        if sched_clause and tr.exc is None:
+            import datetime
+            days = [d for d in S["cal"] if S["start"] <= d <= S["end"]]
+            want = [datetime.datetime.combine(d, datetime.time((571 + sched_minute) // 60, (571 + sched_minute) % 60)) for d in days]
+            ctx.evaluations += len(want)
+            ctx.stats["minute_scheduled_days"] += len(want)
+            ctx.stats["minute_universe_changes_before_scheduled_bar"] += tr.stats.get("universe_changes_before_scheduled_bar", 0)
+            ctx.nontrivial("1m-real-run", cfgk["sim"]["matching_type"], len(days))
+            if fires != want:
+                ctx.witness(sched_clause, {"kind": "minute_run_time_rule"}, "minute back-test, run_daily(time_rule=market_open(minute=%d)), the universe changes in the bar before: fired at %s; specification %s"
+                            % (sched_minute, [str(x) for x in fires], [str(x) for x in want]), {"run_seed": rs, "run_index": "m%d" % k})
